@@ -7,8 +7,10 @@
      LIB=<-|P|B;..|S;..|G;..>         what the library API returned for those parameters:
                                       B / G = bigraded grid  "i,j,rank,tor,tor..;..",  S = sequence "i,rank,tor..;.."
    output line: the expected result line of the real binary
-     exit=<code> kind=<table|error:<kind>> out=<escaped stdout> [fb=<ok|no>]
-   (fb, ckh only: verdict of Table.check_ckh_text on the text the binary printed, field RAW=:<escaped stdout>)
+     exit=<code> kind=<table|error:<kind>> out=<escaped stdout> [ovf=1] [cls=<g|u> fb=<ok|no>]
+   ovf=1: constants beyond 32 bits (Cli.overflow_prone), a panic/table difference between two processes is legitimate;
+   cls/fb (ckh tables only): q-graded parameters or not, and the verdict of Table.check_ckh_text on the text the
+   binary printed (field RAW=:<escaped stdout>)
    or "MISMATCH model=<decision> harness=<decision>" when the harness' dispatch differs from the model's
    (then the library cells were computed for the wrong parameters and nothing can be compared). *)
 
@@ -131,22 +133,24 @@ let handle (line : string) : string =
       lib_ckh = (fun _ _ -> match lib with LG g -> Some g | _ -> None) } in
     let o = run cmd t_arg c_arg mirror reduced link orc in
     let code = string_of_n (exit_code o) in
+    let c = (match c_arg with None -> s_0 | Some s -> s) in
+    let dec = (match (match t_arg with None -> Some TZ | Some s -> parse_ctype s) with
+               | Some ty -> Some (decide cmd ty c reduced) | None -> None) in
+    (* i64 arithmetic on constants beyond 32 bits may or may not overflow, depending on the process *)
+    let ovf = (match dec with Some (DCompute p) when overflow_prone p -> " ovf=1" | _ -> "") in
     match o with
-    | OError e -> Printf.sprintf "exit=%s kind=error:%s out=" code (err_name e)
+    | OError e -> Printf.sprintf "exit=%s kind=error:%s out=%s" code (err_name e) ovf
     | OTable s ->
         (* ckh only: when the exact text differs the check falls back on the certificate check *)
         let fb =
-          match cmd, lib, (try Some (Stdlib.List.assoc "RAW" fs) with Not_found -> None),
-                (match t_arg with None -> Some TZ | Some s -> parse_ctype s) with
-          | Ckh, LG g, Some raw, Some ty ->
-              let c = (match c_arg with None -> s_0 | Some s -> s) in
-              (match decide cmd ty c reduced with
-               | DCompute p ->
-                   let text = str_of_field (String.sub raw 1 (String.length raw - 1)) in
-                   if check_ckh_text (ring_symbol p.p_ring) (ckh_graded c p) g text then " fb=ok" else " fb=no"
-               | _ -> "")
+          match cmd, lib, (try Some (Stdlib.List.assoc "RAW" fs) with Not_found -> None), dec with
+          | Ckh, LG g, Some raw, Some (DCompute p) ->
+              let text = str_of_field (String.sub raw 1 (String.length raw - 1)) in
+              let graded = ckh_graded c p in
+              Printf.sprintf " cls=%s fb=%s" (if graded then "g" else "u")
+                (if check_ckh_text (ring_symbol p.p_ring) graded g text then "ok" else "no")
           | _ -> "" in
-        Printf.sprintf "exit=%s kind=table out=%s%s" code (escape_text (text_of_str s)) fb
+        Printf.sprintf "exit=%s kind=table out=%s%s%s" code (escape_text (text_of_str s)) ovf fb
   end
 
 let () = run_lines handle
